@@ -52,6 +52,8 @@ pub struct HistCfg {
     pub all_adaptive: bool,
     /// extended lifecycle operations: sentinel bounds, metadata, lock / transfer-locked, reset, reposition, bundles
     pub lifecycle_ext: bool,
+    /// position token accounts get delegates (another user or the owner itself, amounts 0 / 1 / 2 / max) and lose them again
+    pub delegates: bool,
     pub spacings: Vec<u16>,
 }
 impl Default for HistCfg {
@@ -75,7 +77,8 @@ impl Default for HistCfg {
             seed_growth: false,
             all_adaptive: false,
             lifecycle_ext: false,
-            spacings: vec![1, 8, 64, 128, 256, 32896],
+            delegates: false,
+            spacings: vec![1, 8, 64, 128, 256, 32768, 32896],
         }
     }
 }
@@ -256,7 +259,40 @@ impl Hist {
     }
 
     /// Execute one instruction on the live world and feed the monitors.
+    /// One instruction in twenty that names a vault of a pool which owns ANOTHER token account of the same mint
+    /// (a reward paid in one of the pool's own tokens, two rewards in the same token) names that sibling
+    /// instead: same mint, same authority, wrong account - the program must refuse.
+    fn maybe_sibling_vault(w: &mut World, mut ix: Ix, acc: &mut Acc) -> Ix {
+        if w.pools.iter().all(|p| p.rewards.is_empty()) || !rnd::chance(&mut w.r, 1, 20) {
+            return ix;
+        }
+        let mut options: Vec<(usize, Pubkey)> = vec![];
+        for (mi, m) in ix.metas.iter().enumerate() {
+            if !m.name.contains("vault") {
+                continue;
+            }
+            for p in &w.pools {
+                let owned: Vec<(Pubkey, Pubkey)> = [(p.mint_a, p.vault_a), (p.mint_b, p.vault_b)].into_iter().chain(p.rewards.iter().copied()).collect();
+                if let Some((mint, _)) = owned.iter().find(|(_, k)| *k == m.key) {
+                    for (m2, k2) in &owned {
+                        if m2 == mint && *k2 != m.key {
+                            options.push((mi, *k2));
+                        }
+                    }
+                }
+            }
+        }
+        if options.is_empty() {
+            return ix;
+        }
+        let (mi, k) = *rnd::pick(&mut w.r, &options);
+        ix.metas[mi].key = k;
+        acc.count("sibling_vault_substitutions");
+        ix
+    }
+
     pub fn step(&mut self, w: &mut World, ix: Ix, monitors: &mut [Box<dyn Monitor>], acc: &mut Acc) -> Obs {
+        let ix = Self::maybe_sibling_vault(w, ix, acc);
         let obs = w.exec(ix);
         acc.evaluations += 1;
         acc.count(if obs.ok() { "ix_ok" } else { "ix_failed" });
@@ -343,7 +379,9 @@ impl Hist {
                 }
             });
             pick!(cfg.w_lifecycle, {
-                if cfg.lifecycle_ext && w.r.gen() {
+                if cfg.delegates && rnd::chance(&mut w.r, 1, 4) {
+                    self.op_delegate(w, p, acc)
+                } else if cfg.lifecycle_ext && w.r.gen() {
                     self.op_lifecycle_ext(w, p, monitors, acc)
                 } else {
                     self.op_lifecycle(w, p, monitors, acc)
@@ -920,6 +958,32 @@ impl Hist {
     }
 
     /// Lock / transfer-locked / reset / reposition / bundles / sentinel bounds / metadata.
+    /// Token-program traffic on a position token account: the owner approves a delegate (another user or
+    /// itself) for 0 / 1 / 2 / u64::MAX tokens, or revokes it. Not a whirlpool instruction: no monitor step.
+    pub fn op_delegate(&mut self, w: &mut World, p: usize, acc: &mut Acc) {
+        let live = self.live_positions(w, p);
+        if live.is_empty() {
+            return;
+        }
+        let i = *rnd::pick(&mut w.r, &live);
+        let pi = w.positions[i].clone();
+        let Some(program) = w.bank.get(&pi.token_account).map(|a| a.owner) else { return };
+        let owner = w.users[pi.owner].key;
+        let ix = if rnd::chance(&mut w.r, 1, 3) {
+            acc.count("position_token_revokes");
+            spl_token_2022::instruction::revoke(&program, &pi.token_account, &owner, &[]).unwrap()
+        } else {
+            let delegate = if w.r.gen() { owner } else { w.users[w.r.gen_range(0..w.users.len())].key };
+            let amount = *rnd::pick(&mut w.r, &[0u64, 1, 2, u64::MAX]);
+            acc.count(if delegate == owner { "position_token_self_delegations" } else { "position_token_delegations" });
+            spl_token_2022::instruction::approve(&program, &pi.token_account, &delegate, &owner, &[], amount).unwrap()
+        };
+        let o = w.exec_raw(&ix);
+        if !o.ok() {
+            acc.count("position_token_delegate_ops_failed");
+        }
+    }
+
     pub fn op_lifecycle_ext(&mut self, w: &mut World, p: usize, monitors: &mut [Box<dyn Monitor>], acc: &mut Acc) {
         use solana_program::system_program;
         let pool = w.pools[p].clone();
@@ -1313,7 +1377,14 @@ impl Hist {
             0 | 1 if n_init < 3 => {
                 // initialise the next reward (sometimes a wrong index)
                 let idx = if rnd::chance(&mut w.r, 1, 6) { w.r.gen_range(0..4) as u8 } else { n_init as u8 };
-                let mint = if self.cfg.spl_only || w.r.gen() { w.add_spl_mint(6) } else { w.add_t22_mint(6, None) };
+                // one reward in five is paid in one of the pool's own tokens (the pool then owns two accounts of that mint)
+                let mint = if rnd::chance(&mut w.r, 1, 5) {
+                    if w.r.gen() { w.pools[p].mint_a } else { w.pools[p].mint_b }
+                } else if self.cfg.spl_only || w.r.gen() {
+                    w.add_spl_mint(6)
+                } else {
+                    w.add_t22_mint(6, None)
+                };
                 let (ix, vault) = w.init_reward_ix(p, idx, mint);
                 let o = self.step(w, ix, monitors, acc);
                 if o.ok() {
